@@ -264,5 +264,24 @@ THEOREMS = {
     },
 }
 
-OPEN = {}
-ASSUME = {}
+OPEN = {
+    "C01": ["byte-level closure with EnsurePathExistsOnAdd on (tree-level C14.applyOps_refines_ensure is proved; C01ensure in progress)",
+            "the byte-level theorem carries `result depth <= 10000` (needed: the reference parser has a nesting limit, Marshal has none)"],
+    "C03": [],
+    "C04": ["the Go heap is modelled by values: sharing and cycles are not representable (see DESIGN D17)"],
+    "C09": ["'no exported function writes to the byte slices or Patch it is given' is observed and supported by regenerated facts, not a theorem"],
+    "C10": ["data-race freedom under the Go memory model: executed schedules only (race detector)"],
+    "C15": ["C15.tests_transparent (passing tests leave the bytes unchanged outside the known-finding trigger class)",
+            "C15.no_new_escapes (EscapeHTML off introduces no HTML-class escapes)"],
+    "C16": ["C16.entry_points as one collected theorem (its parts are proved in C06bytes, C02bytes, C03impl, C11, C15apply)"],
+    "C17": ["the reflective decoder and encoder are described at value level (decodeDoc/childOf/anyOf, cstOf/marshalAnyE); literal models JP/Codec are in progress",
+            "struct tags, float formatting, Decoder/Encoder streams: differential testing only"],
+    "C19": ["refinement of the legacy CreateMergePatch model to Spec.diff and byte-level closure of the legacy merge functions (in progress)"],
+    "C20": ["go-flags, OS, process exit: observed only"],
+}
+ASSUME = {
+    "C01": ["member names are duplicate-free (RFC 8259 leaves repeated names open)"],
+    "C02": ["member names are duplicate-free; document is not null"],
+    "C06": ["numbers compared by literal text"],
+    "C18": ["the statement's own domain: see DESIGN 13.4"],
+}
